@@ -391,6 +391,65 @@ class ImplCrash(Exception):
     pass
 
 
+def run_impl_watch(binary, lines, stall=20, env=None, marker="NOLOG", max_culprits=4):
+    """For harnesses that flush one output line per finished case: run the batch, and when the process makes no
+    progress for <stall> s (a livelock cannot be interrupted from inside, least of all under the virtual clock) or
+    dies, the case it was in gets '<marker> ...' and the batch continues after it. After <max_culprits> such cases the
+    rest of the batch is marked '<marker> skipped' (not evaluated)."""
+    import time as _t
+    out = []
+    culprits = 0
+    pos = 0
+    while pos < len(lines):
+        if culprits >= max_culprits:
+            out += ["%s skipped: %d earlier cases of this batch hung or crashed" % (marker, culprits)] * (len(lines) - pos)
+            break
+        td = tmpdir()
+        cf, of = os.path.join(td, "cases.txt"), os.path.join(td, "out.txt")
+        with open(cf, "w") as f:
+            f.write("\n".join(lines[pos:]) + "\n")
+        p = subprocess.Popen([binary, cf, of], stdout=subprocess.PIPE, stderr=subprocess.STDOUT, text=True, env=env)
+        last_n, last_t = -1, _t.time()
+        reason = None
+        while True:
+            try:
+                p.wait(timeout=0.5)
+                break
+            except subprocess.TimeoutExpired:
+                pass
+            try:
+                n = os.path.getsize(of)
+            except OSError:
+                n = 0
+            if n != last_n:
+                last_n, last_t = n, _t.time()
+            elif _t.time() - last_t > stall:
+                p.kill()
+                p.wait()
+                reason = "no progress for %d s: the case never finishes (livelock or deadlock)" % stall
+                break
+        try:
+            got = open(of).read().split("\n")
+        except OSError:
+            got = []
+        if got and got[-1] == "":
+            got.pop()
+        if reason is None and p.returncode != 0:
+            reason = "the harness process died: " + " ".join((p.stdout.read() or "")[-300:].split())
+        shutil.rmtree(td, ignore_errors=True)
+        if reason is None and len(got) == len(lines) - pos:
+            out += got
+            break
+        if reason is None:
+            reason = "the harness returned %d lines for %d cases" % (len(got), len(lines) - pos)
+        got = got[:len(lines) - pos - 1]
+        out += got
+        out.append("%s %s" % (marker, reason))
+        culprits += 1
+        pos += len(got) + 1
+    return out
+
+
 def run_impl_robust(binary, lines, timeout=300, single_timeout=30, env=None, marker="NOLOG"):
     """run_impl, but a crash or a hang of the harness process is narrowed down by bisection to the case(s) that
     cause it; those get '<marker> <reason>' as their output (a replayable failing case), the others their results."""
